@@ -4,6 +4,7 @@ import (
 	"context"
 	"errors"
 	"fmt"
+	"reflect"
 	"runtime/debug"
 	"sort"
 	"strings"
@@ -285,17 +286,15 @@ type c13Model struct {
 
 func (m *c13Model) built() bool { return m.mode == c13DSFromOSM || m.mode == c13DSFromChange }
 
-// normalize makes the model say what a library-built datasource can express: no
-// present-but-empty history; for a change as source the visible versions come first (create
+// normalize makes the model say what a library-built datasource can express (a present but
+// empty history simply does not occur in the source object, i.e. is not found - the expected
+// outcome is the same): for a change as source the visible versions come first (create
 // and modify sections are added before the delete section and marked accordingly). Idempotent.
 func (m *c13Model) normalize() {
 	if !m.built() {
 		return
 	}
 	for _, h := range m.hist {
-		if h.present && len(h.entries) == 0 {
-			h.present = false
-		}
 		if m.mode == c13DSFromChange {
 			sort.SliceStable(h.entries, func(i, j int) bool { return h.entries[i].vis() && !h.entries[j].vis() })
 		}
@@ -711,6 +710,24 @@ func c13RunReuse(m *c13Model, reuse *c13DS) (out c13Out) {
 	return out
 }
 
+// c13ErrUnusable says why a non-nil error value cannot be used as an error: it holds a nil
+// pointer (the classic typed-nil stored in an interface) or its Error method panics.
+func c13ErrUnusable(err error) (why string) {
+	if err == nil {
+		return ""
+	}
+	if v := reflect.ValueOf(err); v.Kind() == reflect.Ptr && v.IsNil() {
+		return fmt.Sprintf("the error interface is non-nil but holds a nil %T", err)
+	}
+	defer func() {
+		if x := recover(); x != nil {
+			why = fmt.Sprintf("calling Error() on the returned %T panics: %v", err, x)
+		}
+	}()
+	_ = err.Error()
+	return ""
+}
+
 // errClass reduces an error to what the property distinguishes (never its text).
 func (o c13Out) errClass() string {
 	if o.pan != "" {
@@ -719,11 +736,14 @@ func (o c13Out) errClass() string {
 	if o.err == nil {
 		return "nil"
 	}
+	if why := c13ErrUnusable(o.err); why != "" {
+		return "unusable-error"
+	}
 	if errors.Is(o.err, error(o.ds.injected)) {
 		return "injected"
 	}
 	var nv *annotate.NoVisibleChildError
-	if errors.As(o.err, &nv) {
+	if errors.As(o.err, &nv) && nv != nil {
 		return "NoVisibleChildError(" + nv.ID.String() + ")"
 	}
 	return fmt.Sprintf("other(%T)", o.err)
@@ -936,7 +956,28 @@ func c13CheckObs(m *c13Model, out c13Out) (fs []c13Finding, inCellOrder int) {
 	failing := append(append([]int(nil), injected...), missing...)
 	sort.Ints(failing)
 
-	// --- error side
+	// --- error side: success means err == nil (the interface), failure means an error one can use
+	if why := c13ErrUnusable(out.err); why != "" {
+		if len(failing) > 0 {
+			add("error-unusable", failing[0], "an error is expected for %s, but %s", m.items[failing[0]].el.str(), why)
+			return fs, inCellOrder
+		}
+		item := -1
+		for i, x := range exps { // the elements the option turns into creates are the ones with a special path
+			if x.status != c13StMissing {
+				continue
+			}
+			if item < 0 {
+				item = i
+			}
+			if s1 := m.single(i); c13ErrUnusable(c13Run(s1).err) != "" { // name the one that fails on its own
+				item = i
+				break
+			}
+		}
+		add("error-not-nil-on-success", item, "every changed element can be annotated (created, has an earlier version, or missing children are ignored) so err must be nil, but %s", why)
+		return fs, inCellOrder
+	}
 	if len(failing) > 0 {
 		if out.err == nil {
 			i := failing[0]
@@ -954,7 +995,7 @@ func c13CheckObs(m *c13Model, out c13Out) (fs []c13Finding, inCellOrder int) {
 			return fs, inCellOrder
 		}
 		var nv *annotate.NoVisibleChildError
-		if errors.As(out.err, &nv) {
+		if errors.As(out.err, &nv) && nv != nil {
 			if len(missing) == 0 {
 				add("error-injected-not-returned", injected[0], "datasource error for %s must be returned as is, got a *NoVisibleChildError for %v", m.items[injected[0]].el.str(), nv.ID)
 				return fs, inCellOrder
@@ -979,7 +1020,7 @@ func c13CheckObs(m *c13Model, out c13Out) (fs []c13Finding, inCellOrder int) {
 	if out.err != nil {
 		item := -1
 		var nv *annotate.NoVisibleChildError
-		if errors.As(out.err, &nv) {
+		if errors.As(out.err, &nv) && nv != nil {
 			for i, it := range m.items { // prefer the element the option should have turned into a create
 				if it.el.fid() == nv.ID && it.sec != c13Create && (item < 0 || (exps[i].status == c13StMissing && exps[item].status != c13StMissing)) {
 					item = i
